@@ -53,6 +53,12 @@ class RTCMMessage:
         self._payload = payload
         if self._payload is None:
             raise RTCMMessageError("Payload must be specified")
+        try:
+            _ = self.identity  # payload must at least contain the message identity
+        except IndexError as err:  # pragma: no cover
+            raise RTCMMessageError(
+                f"Payload too short to contain message identity: {self._payload}"
+            ) from err
         self._payloadi = int.from_bytes(self._payload, "big")  # payload as int
         self._payblen = len(self._payload) * 8  # length of payload in bits
         self._labelmsm = labelmsm
